@@ -374,6 +374,11 @@ def run(chk, replay=None):
     rng.shuffle(allv)
     for b in ([len(allv)], [1] * len(allv), [], [0, 4, 0, 9, 2]):
         cases.append({"reqs": allv, "batches": b, "via": "manager", "between": "none", "cls": "all-variants"})
+    # a lagging follower: ONE replication batch of several hundred entries (and the same sequence cut at 128/129/257)
+    for _ in range(2 if tier == "quick" else 12):
+        long_reqs = g.sequence(rng.choice([300, 420]))
+        for b in ([len(long_reqs)], [128, len(long_reqs) - 128], [129, 128, len(long_reqs) - 257]):
+            cases.append({"reqs": long_reqs, "batches": b, "via": "manager", "between": "none", "cls": "long-batch"})
     # nasty class 1: poison ConfigFullValue (undecodable bytes) followed by other entries
     poison = {"ConfigFullValue": {"key": [97, 2, 98], "value": [255, 255, 255], "last_seq_id": None}}
     for k in range(6 if tier == "quick" else 60):
